@@ -36,6 +36,40 @@ CONTRACTS["project:ProjectSettings.tvec"] = dict(
 )
 
 
+# ---- the grid invariant over mathematical reals (REAL mode): after every public setter the end lies on the grid start + k*dt.
+# This is the arithmetic-free part of the setter's behaviour (which branch is taken and what is stored); the floating-point
+# rounding of the quotient stays with the bounded sweep below.
+_on_grid = "(self._sim_end - self._sim_start) / self._sim_dt == round((self._sim_end - self._sim_start) / self._sim_dt)"
+_real_ranges = ["self._sim_dt > 0"]
+CONTRACTS["project:ProjectSettings.sim_end.setter"] = dict(
+    schema=schema, params={"sim_end": "real"}, modular=True,   # the other setters call it: they see this contract, not its body
+    requires=_real_ranges + ["sim_end >= self._sim_start"],
+    modifies=["self._sim_end"],
+    ensures=[
+        ("C03.end_lies_on_the_grid", _on_grid),
+        ("C03.end_is_the_first_grid_point_at_or_after_the_request", "(self._sim_end - self._sim_start) / self._sim_dt >= (sim_end - self._sim_start) / self._sim_dt - 1 / 100000000 and (self._sim_end - self._sim_start) / self._sim_dt < (sim_end - self._sim_start) / self._sim_dt + 1"),
+    ],
+    frame_props=["C03"], defined_props=["C03"])
+CONTRACTS["project:ProjectSettings.sim_start.setter"] = dict(
+    schema=schema, params={"sim_start": "real"},
+    requires=_real_ranges + [_on_grid, "sim_start <= self._sim_end"],
+    modifies=["self._sim_start", "self._sim_end"],
+    ensures=[
+        ("C03.end_stays_on_the_grid_of_the_new_start", _on_grid),
+        ("C03.start_is_the_requested_year", "self._sim_start == sim_start"),
+    ],
+    frame_props=["C03"], defined_props=["C03"])
+CONTRACTS["project:ProjectSettings.sim_dt.setter"] = dict(
+    schema=schema, params={"sim_dt": "real"},
+    requires=["sim_dt > 0", "self._sim_end >= self._sim_start"],
+    modifies=["self._sim_dt", "self._sim_end"],
+    ensures=[
+        ("C03.end_lies_on_the_grid_of_the_new_step", _on_grid),
+        ("C03.step_is_the_requested_step", "self._sim_dt == sim_dt"),
+    ],
+    frame_props=["C03"], defined_props=["C03"])
+
+
 def _bounded_grid_sweep(tier="quick", seed=0):
     """BOUNDED stand-in (never counted as proved) for the rounding behaviour of the sim_end setter on real doubles: exact
     rational arithmetic (fractions) decides the band for every (start, end, dt) of a fixed catalogue plus seeded random ones"""
